@@ -329,6 +329,7 @@ type runner struct {
 	steps []step           // the behaviour executed so far (replayable)
 	rnd   *rand.Rand
 	hang  string
+	recorded []frameT // credentials frames seen on any connection of this run (what an observer can replay)
 	shared []string // a pool object was found in the pool while a running worker still holds it
 }
 
